@@ -1,5 +1,5 @@
 """C16 - BIC matches its definition (end-to-end half)."""
-from . import _common
+from . import _common, _metrics
 
 LEVEL = "model_checking"
 
@@ -9,4 +9,5 @@ def run(tier):
         "C16", tier, LEVEL, models=(),
         need=('empty_final_cluster','scaled_data'),
         rule="""every completed run: BIC recomputed from the final model by definition (slogdet), parameter count by maximal runs""",
+        extra=lambda rep, trs, tier: _metrics.bic_family(rep, tier, {"C16"}),
         nontrivial=lambda t: (t['hdr']['id'],))
